@@ -82,8 +82,8 @@ pub fn max_gain(spec: &FxSpec) -> f64 {
 			mixed(1.0 + 2.0 / k, *mix)
 		}
 		FxSpec::Eq { gain_db, q, .. } => {
-			// shelves overshoot for high q; bound generously
-			amp(gain_db.abs()) * (1.0 + 1.0 / q.max(0.01)).min(101.0)
+			// shelves and bells resonate for high q; bound generously
+			amp(gain_db.abs()) * q.max(1.0) * 2.0
 		}
 		FxSpec::Distortion { mix, .. } => mixed(1.0, *mix),
 		FxSpec::Compressor { ratio, makeup_db, mix, .. } => {
